@@ -37,7 +37,24 @@ def main(argv=None) -> int:
         with open(args.replay) as fh:
             rec = json.load(fh)
         part = report.new_part()
-        module.replay(rec["case"], part)
+        case = rec["case"]
+        try:
+            if isinstance(case, dict) and "_fn" in case:
+                # a shard in which the implementation itself raised: run that shard again
+                modname, _, fname = case["_fn"].partition(":")
+                fn = getattr(importlib.import_module(modname), fname)
+                shard = case["_shard"]
+                fn(tuple(shard) if isinstance(shard, list) else shard)
+            elif isinstance(case, dict) and case.get("_rerun"):
+                print(f"this violation was raised outside a shard: re-run ./check {prop} --tier {case['_rerun']}")
+                return 0
+            else:
+                module.replay(case, part)
+        except Exception as exc:
+            origin = report.netqasm_origin(exc)
+            if origin is None:
+                raise
+            part["violations"].append(report.implementation_violation(exc, origin, case))
         if part["violations"]:
             for v in part["violations"]:
                 print(f"VIOLATION property={prop} replay={args.replay}")
@@ -57,13 +74,21 @@ def main(argv=None) -> int:
     ctx = report.Ctx(prop, args.tier, seed, args.jobs, module)
     try:
         module.run(ctx)
+    except report.ImplementationRaised:
+        pass                      # recorded as a violation; finish() reports it
     except report.CheckBroken as exc:
         print(f"BROKEN-CHECK property={prop}: {exc}", file=sys.stderr)
         return 2
-    except Exception:
-        traceback.print_exc()
-        print(f"BROKEN-CHECK property={prop}: explorer crashed", file=sys.stderr)
-        return 2
+    except Exception as exc:
+        origin = report.netqasm_origin(exc)
+        if origin is None:
+            traceback.print_exc()
+            print(f"BROKEN-CHECK property={prop}: explorer crashed", file=sys.stderr)
+            return 2
+        v = report.implementation_violation(exc, origin, {"_rerun": args.tier})
+        report.count(ctx.total, "violation:" + v["fingerprint"])
+        ctx.total["violations"].append(v)
+        ctx.total["notes"].append("exploration aborted: the implementation raised (see the implementation-raises/* violation)")
     return report.finish(ctx)
 
 
